@@ -166,3 +166,74 @@ def nsga2_restart(space: int, seed: int, batch: int, pattern: int, m: int) -> bo
   mask = [0xFF, 0x00, 0xAA, 0x10, 0xE0, 0x81][m]
   return _run(['nsga2_mixed', 'nsga2_two'][space], seed, batch, pattern, mask,
               (space, seed, [2, 3, 5].index(batch) + 1, pattern, m))
+
+
+# ---- the same through the policy layer that persists and restores designer state and the incorporated-trial cache -----
+def _hosted(kind, seed, batch, pattern, mask, args):
+  from vizier import pythia
+  from vizier._src.algorithms.policies import designer_policy as dp
+  from vizier._src.pythia import local_policy_supporters as lps
+  with NoTracing():
+    problem = _problem(kind)
+    names = [m.name for m in problem.metric_information]
+    factory = lambda p, **kw: _make(kind, p, seed)      # noqa: E731  (the policy's own seed argument is ignored)
+    worlds = []
+    import copy
+    for _ in range(2):
+      own = copy.deepcopy(problem)       # (the supporter keeps the study config, incl. its metadata, by reference)
+      sup = lps.InRamPolicySupporter(own)
+      worlds.append({'sup': sup, 'problem': own, 'policy': dp.PartiallySerializableDesignerPolicy(own, sup, factory),
+                     'pending': []})
+    ok, where = True, None
+    for r in range(ROUNDS):
+      if (mask >> r) & 1:
+        w = worlds[1]                    # the service's behaviour: a NEW policy, everything restored from study metadata
+        w['policy'] = dp.PartiallySerializableDesignerPolicy(w['problem'], w['sup'], factory)
+      keys = []
+      for w in worlds:
+        req = pythia.SuggestRequest(study_descriptor=w['sup'].study_descriptor(), count=batch)
+        decision = w['policy'].suggest(req)
+        w['sup']._UpdateMetadata(decision.metadata)
+        new = w['sup'].AddSuggestions(decision.suggestions)
+        w['pending'].extend(new)
+        keys.append(_params_key(decision.suggestions))
+      if kind == 'eagle' and keys[0] != keys[1]:
+        ok, where = False, ['suggest differs at round', r, keys[0], keys[1]]
+        break
+      if kind != 'eagle':
+        d0, d1 = worlds[0]['policy'].designer, worlds[1]['policy'].designer
+        if _md_key(d0.dump()) != _md_key(d1.dump()) or d0._num_trials_seen != d1._num_trials_seen:
+          ok, where = False, ['population / counters differ at round', r, d0._num_trials_seen, d1._num_trials_seen]
+          break
+      for wi, w in enumerate(worlds):
+        pending = w['pending']
+        if pattern == 0:
+          now = list(pending)
+        elif pattern == 1:
+          now = list(reversed(pending))
+        elif pattern == 2:
+          now = [t for t in pending if t.id % 2 == 0] if r % 2 == 0 else list(reversed(pending))
+        else:
+          now = list(pending[-1:]) if r % 3 != 2 else list(pending)
+        w['pending'] = [t for t in pending if all(t.id != u.id for u in now)]
+        for t in now:
+          # NSGA-II: both worlds are fed the history of world 0 (same parameters by construction for eagle)
+          src = t if (kind == 'eagle' or wi == 0) else worlds[0]['by_id'][t.id]
+          vals = _objective(src.parameters)
+          if kind != 'eagle' and wi == 1:
+            t.parameters = src.parameters
+          t.complete(vz.Measurement({n: vals[n] for n in names}))
+        if wi == 0:
+          w.setdefault('by_id', {}).update({t.id: t for t in now})
+  reach('hosted_%s_restart' % kind)
+  return finish(ok, args, obs=where)
+
+
+def hosted_eagle_restart(seed: int, batch: int, pattern: int, m: int) -> bool:
+  """
+  pre: 0 <= seed <= 1 and 2 <= batch <= 3 and 0 <= pattern <= 3 and 0 <= m <= 5
+  post: _
+  """
+  seed, batch, pattern, m = conc(seed, 0, 1), [2, 3, 5][conc(batch, 2, 3) - 1], conc(pattern, 0, 3), conc(m, 0, 5)
+  mask = [0xFF, 0x00, 0xAA, 0x10, 0xE0, 0x81][m]
+  return _hosted('eagle', seed, batch, pattern, mask, (seed, [2, 3, 5].index(batch) + 1, pattern, m))
